@@ -166,6 +166,8 @@ def _shard(arg):
         for seed in [s for s in base if accepted[s]][:inflate_count]:
             for name, data in mutate.inflations(seed):
                 _evaluate(stats, target, 'immutable', data, 'inflated:' + name.split('-')[0], True)
+            for name, data in mutate.utf8_substitutions(seed, limit=9):
+                _evaluate(stats, target, 'immutable', data, 'inflated:' + name.split('-')[0], True)
             if target.is_class and not mutate.looks_textual(seed) and len(seed) <= 1500:
                 fields = numeric_fields(target.cls, seed)
                 for name, data in mutate.field_extremes(seed, fields[:48]):
